@@ -370,7 +370,16 @@ func CheckGates(c *Ctx, prop string, specs []GateSpec) {
 					if i := strings.Index(d, "."); i > 0 {
 						whole = d[:i]
 					}
-					if !have[d] && !have[whole] {
+					part := false
+					if !strings.Contains(d, ".") {
+						// frozen on the whole parameter (imprecise at the time): a dependence on a part of it is that dependence
+						for cd := range have {
+							if strings.HasPrefix(cd, d+".") {
+								part = true
+							}
+						}
+					}
+					if !have[d] && !have[whole] && !part {
 						lost = append(lost, d)
 					}
 				}
